@@ -14,7 +14,7 @@ for p in $props; do
     tmpv="/var/tmp/b6vc-selftest-v-$$"
     rm -rf "$wt" "$tmpv"
     git -C /repo worktree add -q --detach "$wt" HEAD || exit 2
-    mkdir -p "$tmpv"; ln -s "$V/props" "$tmpv/props"; ln -s "$V/known_findings.json" "$tmpv/known_findings.json"
+    mkdir -p "$tmpv"; ln -s "$V/props" "$tmpv/props"; ln -s "$V/known_findings.json" "$tmpv/known_findings.json"; ln -s "$V/witness" "$tmpv/witness"
     if ! git -C "$wt" apply "$V/$patch"; then echo "SELFTEST-ERROR $patch does not apply"; fail=1
     else
       out="$(VERIF_REPO="$wt" VERIF_DIR="$tmpv" bin/b6vc check "$p" quick 2>&1)"; rc=$?
